@@ -59,3 +59,39 @@ def rnp_demo(known, evaluate, prop, pid):
                 if s == sorted(x for x, _ in m["bins"]) and s[-1] - s[0] == w["returned_difference"] > w["optimal_difference"]:
                     lines.append(f["line"])
     return lines
+
+
+def hard_bc_instances(rng, ncand, limit):
+    """packing instances on which bin completion's SEARCH runs and matters: planted (near-)perfect packings (3-5 full bins, each split into
+    2-4 parts, at most two units shaved off) and threshold-rich random instances, screened with the model: kept when best-fit-decreasing
+    misses the volume bound ceil(total / C).  Returns [(C, vals)]."""
+    from harness import runner
+    cand = []
+    for _ in range(ncand):
+        C = rng.choice([10, 12, 20, 20, 30, 50, 100])
+        if rng.random() < 0.7:
+            vals = []
+            for _b in range(rng.randint(3, 5)):
+                rest = C
+                for _j in range(rng.randint(1, 3)):
+                    if rest <= 2:
+                        break
+                    hi = max(1, min(rest - 1, (2 * C) // 3))
+                    x = rng.randint(min(max(1, C // 8), hi), hi)
+                    vals.append(x)
+                    rest -= x
+                if rest > 0:
+                    vals.append(rest)
+            for _j in range(rng.choice([0, 0, 1, 2])):
+                i = rng.randrange(len(vals))
+                if vals[i] > 1:
+                    vals[i] -= 1
+            vals = vals[:12]
+        else:
+            pool = [C // 2, C // 2, C // 3] + [rng.randint(1, C) for _ in range(rng.randint(2, 5))]
+            vals = [max(1, rng.choice(pool)) for _ in range(rng.randint(5, 10))]
+        rng.shuffle(vals)
+        cand.append((C, vals))
+    res = runner.run_model([runner.model_line("bfd", [0, C, v, v]) for C, v in cand])
+    hard = [(C, v) for (C, v), r in zip(cand, res) if isinstance(r, dict) and "ok" in r and len(r["ok"]) > -(-sum(v) // C)]
+    return hard[:limit]
